@@ -22,4 +22,4 @@ Definition chk_set_state (o : orc) (oi : orient_in) (vin : vel_in) (fr : frame_i
   (* velocity and rates are computed from the quaternion the code itself stored, so that the BLAS
      rounding of np.linalg.norm does not propagate into a bit-exact comparison *)
   v3_bits (parse_velocity (olookup (tc o)) (olookup (ts o)) (olookup (tt o)) (olookup (ta o)) (d2r o) eq_ vin wind) ev &&
-  v3_bits (parse_rates (olookup (tc o)) (olookup (ts o)) (olookup (tas o)) (olookup2 (ta2 o)) (d2r o) vin fr w_raw) ew.
+  v3_bits (parse_rates (olookup (tc o)) (olookup (ts o)) (olookup (tas o)) (olookup2 (ta2 o)) (d2r o) eq_ wind vin fr w_raw) ew.
